@@ -90,15 +90,23 @@ package utils
 //@   ensures same_error_examined: !implements(err, "net.Error") ==> callarg(Is, 0, 0) == err
 
 // ---- C19: source extractors (SMT strings) ------------------------------------------------------------
-// Address forms produced by net/http for RemoteAddr:  IPv4  h:p   and IPv6  [h]:p  (h may contain ':' and a %zone)
+// Address forms produced by net/http for RemoteAddr:  IPv4  h:p   and IPv6  [h]:p  (h may contain ':' and a %zone).
+// They are characterised by positions: 'h:p' = no leading '[', first ':' at position >= 1, nothing but the port after it;
+// '[h]:p' = leading '[', first ']' followed by ':' and the port, h = what lies between the brackets.
+
+//@ extern net.SplitHostPort
+//@   params hostport
+//@   ensures no_colon_fails: !contains(hostport, ":") ==> result2 != nil
+//@   ensures ipv4_form: !prefixof("[", hostport) && indexof(hostport, ":") >= 0 && !contains(substr(hostport, indexof(hostport, ":") + 1, strlen(hostport)), ":") && !contains(hostport, "[") && !contains(hostport, "]") ==> result2 == nil && result0 == substr(hostport, 0, indexof(hostport, ":")) && result1 == substr(hostport, indexof(hostport, ":") + 1, strlen(hostport))
+//@   ensures ipv6_form: prefixof("[", hostport) && indexof(hostport, "]") >= 1 && substr(hostport, indexof(hostport, "]") + 1, 1) == ":" && !contains(substr(hostport, 1, indexof(hostport, "]") - 1), "[") && !contains(substr(hostport, indexof(hostport, "]") + 2, strlen(hostport)), ":") && !contains(substr(hostport, indexof(hostport, "]") + 2, strlen(hostport)), "[") && !contains(substr(hostport, indexof(hostport, "]") + 2, strlen(hostport)), "]") ==> result2 == nil && result0 == substr(hostport, 1, indexof(hostport, "]") - 1)
 
 //@ func extractClientIP
 //@   props C19
 //@   strings
 //@   requires req != nil
 //@   ensures one_unit: result2 == nil ==> result1 == 1
-//@   ensures ipv4: forall h string, p string :: req.RemoteAddr == concat(h, ":", p) && h != "" && !contains(h, ":") && !contains(h, "[") && !contains(h, "]") && isdigits(p) ==> result2 == nil && result0 == h
-//@   ensures ipv6: forall h string, p string :: req.RemoteAddr == concat("[", h, "]:", p) && h != "" && !contains(h, "[") && !contains(h, "]") && isdigits(p) ==> result2 == nil && result0 == h
+//@   ensures ipv4: !prefixof("[", req.RemoteAddr) && indexof(req.RemoteAddr, ":") >= 1 && !contains(substr(req.RemoteAddr, indexof(req.RemoteAddr, ":") + 1, strlen(req.RemoteAddr)), ":") && !contains(req.RemoteAddr, "[") && !contains(req.RemoteAddr, "]") ==> result2 == nil && result0 == substr(req.RemoteAddr, 0, indexof(req.RemoteAddr, ":"))
+//@   ensures ipv6: prefixof("[", req.RemoteAddr) && indexof(req.RemoteAddr, "]") >= 2 && substr(req.RemoteAddr, indexof(req.RemoteAddr, "]") + 1, 1) == ":" && !contains(substr(req.RemoteAddr, 1, indexof(req.RemoteAddr, "]") - 1), "[") && !contains(substr(req.RemoteAddr, indexof(req.RemoteAddr, "]") + 2, strlen(req.RemoteAddr)), ":") && !contains(substr(req.RemoteAddr, indexof(req.RemoteAddr, "]") + 2, strlen(req.RemoteAddr)), "[") && !contains(substr(req.RemoteAddr, indexof(req.RemoteAddr, "]") + 2, strlen(req.RemoteAddr)), "]") ==> result2 == nil && result0 == substr(req.RemoteAddr, 1, indexof(req.RemoteAddr, "]") - 1)
 //@   ensures empty_address_refused: req.RemoteAddr == "" ==> result2 != nil
 
 //@ func extractHost
